@@ -136,6 +136,18 @@ func contractsFor(eng *Eng, id string) ([]funcTask, []*Lemma, []string) {
 						serves = true
 					}
 				}
+				if c.Kind == "oncall" || c.Kind == "beforecall" || c.Kind == "onwrite" || c.Kind == "atexit" {
+					// "hook: assert [labels] expr": the assertion's labels count like an ensures label
+					if i := strings.Index(c.Expr, "assert ["); i >= 0 {
+						if j := strings.Index(c.Expr[i:], "]"); j > 0 {
+							for _, p := range propsOfLabel(c.Expr[i+len("assert [") : i+j]) {
+								if p == id {
+									serves = true
+								}
+							}
+						}
+					}
+				}
 				if c.Kind == "props" {
 					for _, p := range splitList(c.Expr) {
 						if p == id {
